@@ -70,6 +70,16 @@ CHECKS = {
             'plaintext, 60+ other sequence numbers, other keys must fail; after real handshakes duplicated, swapped and '
             'dropped application-data records must surface no byte at or after the fault.',
             '4/C11', TRUSTED),
+    'C18': ('fault_enumeration',
+            'interposed getentropy (per-thread deterministic streams, draw log, injected failure at draw i) and virtual '
+            'clock in the sanitized process; outputs compared across streams and runs; send() calls after the failed draw '
+            'classified by record type',
+            'For 19 randomised primitives (SM2 keygen/sign x4/encrypt x4, PKCS#8 encryption, SM9 keygen/sign/encrypt/exchange, '
+            'tls_cbc_encrypt, TLS randoms and pre-master secret) and for each handshake role of the three protocols: different '
+            'streams give different ephemeral values, the same stream and clock give identical bytes, repeated operations '
+            'never repeat an ephemeral value, and for EVERY draw index of the clean run a failure of that draw must make the '
+            'operation / handshake report failure with nothing but alerts sent afterwards.',
+            '4/C18', TRUSTED),
     'C19': ('exploration',
             'file-descriptor level capture of stdout/stderr around each operation in the sanitized process, scanned for '
             'every secret the harness knows (raw and hex layouts); scanner self-tested on an explicit key print',
